@@ -39,7 +39,7 @@ NewRun(ev) ==
       refuse |-> refuse,
       \* source lines a diagnostic may cite (set of [line, text]); empty = not known to the harness
       offend |-> IF "offend" \in DOMAIN ev THEN {ev.offend[j] : j \in 1 .. Len(ev.offend)} ELSE {},
-      sawpos |-> FALSE]
+      sawpos |-> FALSE, pos |-> << >>]
 
 \* a message citing a source line is pending after PRINT / INT 0 / INT 3 / unsupported AH
 Pending(kind, e, idx) == <<kind, idx, e.line, IF kind = "int3" THEN "" ELSE e.text>>
@@ -170,7 +170,7 @@ OnDiagPos(r, ev) ==
            <<"diagnostic cites line", ev.line, ev.text, "the offending token is on", r.offend>>)
   /\ Check(r.offend = {} \/ \E o \in r.offend : o.line = ev.line /\ (o.col < 0 \/ o.col = ev.col), "diagpos",
            <<"diagnostic cites column", ev.col, "the offending token is at", r.offend>>)
-  /\ run' = [r EXCEPT !.sawpos = TRUE]
+  /\ run' = [r EXCEPT !.sawpos = TRUE, !.pos = <<ev.line, ev.col, ev.textb>>]
 
 OnDiag(r, ev) ==
   /\ Check(r.refuse # "", "diag", <<"diagnostic for a valid program", ev.stage, ev.msg>>)
@@ -226,6 +226,14 @@ ChunkOf(outs, k, lo, hi) ==
   ELSE LET mid == (lo + hi) \div 2 IN
        IF Len(Norm(FlatOut(SubSeq(outs, 1, mid)))) >= k THEN ChunkOf(outs, k, lo, mid) ELSE ChunkOf(outs, k, mid + 1, hi)
 
+\* b contains e as a contiguous piece
+Contains(b, e) == e = << >> \/ \E k \in 1 .. (Len(b) - Len(e) + 1) : b[k] = e[1] /\ SubSeq(b, k, k + Len(e) - 1) = e
+\* the position a diagnostic shows to the user: `<line>:<col> : <text>` (syntax errors) or `<line> :<col> : <text>`
+\* (undefined labels), as printed on stdout -- the hook's diagpos event only says what the driver computed
+Cites(bytes, p) ==
+  LET tail == <<58>> \o DecDigits(p[2]) \o <<SPC, 58, SPC>> \o p[3]
+  IN Contains(bytes, DecDigits(p[1]) \o tail) \/ Contains(bytes, DecDigits(p[1]) \o <<SPC>> \o tail)
+
 OnStdout(r, ev) ==
   LET d == r.d
       outs == IF d.why = "quit" THEN d.out ELSE Append(d.out, [t |-> "final", b |-> <<NL>>])
@@ -237,6 +245,8 @@ OnStdout(r, ev) ==
              ELSE exact \/ (~d.charout /\ ne = no)
   IN /\ Check(r.refuse = "" \/ d.why = "diag", "reject-" \o r.refuse, <<"no diagnostic was produced for a program that must be refused:", r.refuse>>)
      /\ Check(~ev.timeout, "hang", <<"the emulator did not terminate; last phase", d.phase, "index", d.idx>>)
+     /\ Check(ev.timeout \/ d.why # "diag" \/ r.pos = << >> \/ Cites(ev.bytes, r.pos), "diagpos",
+              <<"the diagnostic printed does not show the position", r.pos[1], r.pos[2], "and the line's text; stdout:", ev.bytes>>)
      /\ Check(ev.timeout \/ ev.status = 0, "total", <<"exit status", ev.status>>)
      \* the assembled program was handed to the data loader and the run ended without a memory image or a diagnostic
      /\ Check(d.phase # "load", "load", <<"the run ended while the data was being loaded: exit status", ev.status>>)
